@@ -233,7 +233,7 @@ class Checker:
 def execute(case, rnd_orders=None):
     """case: {"cfg", "ops", "orders": [[labels...]...] (optional: explicit orders)}"""
     c = Checker(case)
-    if c.harness:
+    if c.run0.degenerate():
         return c, [{"kind": "harness", "sig": "harness:honest-rejected", "msg": c.harness[0]}]
     labels = c.labels
     orders = case.get("orders")
